@@ -45,10 +45,12 @@ func c01Event(t *rapid.T) (*mocrelay.Event, gen.Key) {
 		e.Tags = append(e.Tags, tag)
 	}
 	e.Content = gen.UnicodeString(40).Draw(t, "content")
-	if rapid.IntRange(0, 24).Draw(t, "long?") == 0 {
-		// a long run of characters that need no escaping (base64 blob, long CJK line)
-		unit := rapid.SampledFrom([]string{"QUJD", "漢字", "x"}).Draw(t, "longunit")
-		long := strings.Repeat(unit, rapid.IntRange(2000, 9000).Draw(t, "longlen"))
+	if rapid.IntRange(0, 11).Draw(t, "long?") == 0 {
+		// a long run of one unit: characters that need no escaping (base64 blob, long CJK line),
+		// 4-byte characters, or characters with 2- and 6-byte escapes; a short ASCII prefix
+		// shifts the run, so that every alignment to a 4096-byte block or window occurs
+		unit := rapid.SampledFrom([]string{"QUJD", "漢字", "x", "😀", "\n", "\"", "\\", "\x01", "é", "😀\n"}).Draw(t, "longunit")
+		long := strings.Repeat("s", rapid.IntRange(0, 7).Draw(t, "longshift")) + strings.Repeat(unit, rapid.IntRange(2000, 9000).Draw(t, "longlen"))
 		if rapid.Bool().Draw(t, "longintag") {
 			e.Tags = append(e.Tags, mocrelay.Tag{"imeta", long})
 		} else {
